@@ -88,11 +88,13 @@ def gen_cases(tier, seed):
                     spec.append({"p": nm + "_c", "k": "l", "target": os.path.basename(nm)})
                 bad = True
             classes.add(cls)
-        top = r.random() < 0.2
+        top = r.random() < 0.25
+        topdst = None
         if top:
             spec.append({"p": "srclink", "k": "l", "target": r.choice(["src", "@ROOT@/src"])})
             classes.add("toplevel-link")
-        yield {"top": top, "spec": spec, "driver": driver, "classes": sorted(classes), "bad": bad, "maxchain": maxchain, "fs": "ext4",
+            topdst = r.choice(["absent", "existing-dir", "existing-dir"])
+        yield {"topdst": topdst, "top": top, "spec": spec, "driver": driver, "classes": sorted(classes), "bad": bad, "maxchain": maxchain, "fs": "ext4",
                "args": ["--driver", driver, "-w", str(r.choice([1, 2, 4]))] + r.choice([[], [], ["--fsync"], ["--no-perms"], ["--gitignore"], ["--reflink", "never"], ["--no-progress"], ["--block-size", "4096"]])
                        + ["-r", "-L", "src", "dst"]}
 
@@ -138,8 +140,12 @@ def run_case(case):
             res["inconc"].append("generator-model-disagree")
             return res
         args = list(case["args"])
+        dstroot = "dst"
         if case.get("top"):
             args[-2] = "srclink"
+            if case.get("topdst") == "existing-dir":
+                os.mkdir(os.path.join(b(root), b"dst"))
+                dstroot = "dst/srclink"     # copied *into* the directory, under the link's own name
         run = core.run_plain(core.xcp_argv(args), root)
         if run.verdict != "exited":
             res["inconc"].append("run-" + run.verdict)
@@ -151,7 +157,10 @@ def run_case(case):
                 cls = "cycle" if "cycle" in case["classes"] else "dangling"
                 res["viol"].append({"sig": "%s:exit0-with-%s-link" % (case["driver"], cls), "what": "tree contains a %s link but xcp -L exited 0; %s" % (cls, tag)})
         elif run.exit0:
-            post = tree.snapshot(os.path.join(b(root), b"dst"))
+            post = tree.snapshot(os.path.join(b(root), b(dstroot)))
+            if not post:
+                res["viol"].append({"sig": "%s:toplevel-link-misnamed" % case["driver"], "what": "nothing was created at %s (entries under dst: %s); %s"
+                                    % (dstroot, sorted(tree.snapshot(os.path.join(b(root), b"dst"), content=False))[:5], tag)})
             for p, rec in sorted(post.items()):
                 if rec["k"] == "l":
                     res["viol"].append({"sig": "%s:link-in-destination" % case["driver"], "what": "destination contains symbolic link %r -> %r; %s" % (p, rec.get("link"), tag)})
